@@ -280,6 +280,9 @@ type GenOpt struct {
 	N          int
 	Edge       bool
 	Spec       []GField
+	Naming     string
+	QF         bool
+	CBS        int
 	Over       bool // error stream: one uint64 with the high bit set
 	AllowKnown bool
 }
@@ -291,8 +294,9 @@ func genInput(r *lib.Rng, id int, g GenOpt) Input {
 	if isGen(g.Type) {
 		registerGen(g.Type, g.Spec)
 	}
+	curNaming = g.Naming
 	d := descOf(g.Type)
-	in := Input{Type: g.Type, Spec: g.Spec, NoRet: g.NoRet, Op: g.Op, Pre: lib.Pick(r, []int{0, 0, 3, 8})}
+	in := Input{Type: g.Type, Spec: g.Spec, Naming: g.Naming, QF: g.QF, CBS: g.CBS, NoRet: g.NoRet, Op: g.Op, Pre: lib.Pick(r, []int{0, 0, 3, 8})}
 	if g.Op == "batches" {
 		in.BS = r.Range(1, 4)
 		if g.Edge {
@@ -339,7 +343,7 @@ func genInput(r *lib.Rng, id int, g GenOpt) Input {
 		rec := make([]Val, len(d.Fields))
 		for j, f := range d.Fields {
 			switch {
-			case f.Col == "mark":
+			case len(f.Path) == 1 && f.Path[0] == "Mark":
 				rec[j] = vStr(fmt.Sprintf("m%d-%d-%s", id, i, lib.Pick(r, []string{"", "'", "✓", `"`, "x y"})))
 			case pk != nil && f == pk:
 				preset := keyMode == "all" || (keyMode == "mixed" && r.Bool())
@@ -361,7 +365,7 @@ func genInput(r *lib.Rng, id int, g GenOpt) Input {
 				rec[j] = vInt(int64(1 + r.Intn(2)))
 			case f.HPK && f.Kind.K == "str":
 				rec[j] = vStr(fmt.Sprintf("k%d-%d%s", id, i, lib.Pick(r, []string{"", "'", "é"})))
-			case f.Col == "deleted_at" || f.Col == "DeletedAt":
+			case f.Path[len(f.Path)-1] == "DeletedAt":
 				rec[j] = vNil // not soft-deleted
 			case f.EmbPtr && embNil:
 				rec[j] = vAbsent
@@ -450,6 +454,7 @@ func sig(in Input) string {
 	if isGen(in.Type) {
 		registerGen(in.Type, in.Spec)
 	}
+	curNaming = in.Naming
 	d := descOf(in.Type)
 	if hasSer(d) && !in.NoMMap {
 		return "map-read-through-model-with-serializer-field"
@@ -492,6 +497,8 @@ func sig(in Input) string {
 			bs := len(in.Recs)
 			if in.Op == "batches" {
 				bs = in.BS
+			} else if in.CBS > 0 {
+				bs = in.CBS
 			}
 			for s := 0; s < len(in.Recs); s += bs {
 				zero, set := false, false
@@ -512,6 +519,7 @@ func sig(in Input) string {
 }
 
 func shape(in Input) string {
+	curNaming = in.Naming
 	d := descOf(in.Type)
 	var sb strings.Builder
 	tn := in.Type
@@ -521,7 +529,7 @@ func shape(in Input) string {
 			tn += "," + g.Go + ":" + g.Tag
 		}
 	}
-	fmt.Fprintf(&sb, "%s|noret=%v|%s%d|pre%d|n%d|%s|", tn, in.NoRet, in.Op, in.BS, in.Pre, len(in.Recs), in.MapKeys)
+	fmt.Fprintf(&sb, "%s|%s|qf%v|cbs%d|noret=%v|%s%d|pre%d|n%d|%s|", tn, in.Naming, in.QF, in.CBS, in.NoRet, in.Op, in.BS, in.Pre, len(in.Recs), in.MapKeys)
 	// per record: which columns are zero / nil / absent (the value classes the code branches on)
 	for _, r := range in.Recs {
 		for j, f := range d.Fields {
